@@ -115,6 +115,8 @@ def res_token(ids, line):
         return "xj%d" % ids[x[4:]]
     if x.startswith("timeout:"):
         return "xt%d" % ids.get(x[8:], 9999)
+    if x.startswith("orch:"):
+        return "xo%d" % ids.get(x[5:], 9999)
     return "x?"
 
 
@@ -134,6 +136,8 @@ def translate(sc, res, trace):
     excid = {}              # job -> id of the exception its task ended with
     hcancelled = set()
     taken = set()
+    # schedulers whose run ends raising an exception of their own orchestration
+    crashed = {e[3] for e in log if e[2] == "rraise" and str(e[4]) == "orch:" + str(e[3])}
     n = len(log)
 
     def ack_unstarted(K):
@@ -231,7 +235,11 @@ def translate(sc, res, trace):
         last = lines[-1]
         stay = last[2] == "wenter" and last[3] == s and last[4] == "main"
         A.append("R_%d_%d_%s_%s" % (ids[s], 0 if stay else 1, enc(K), enc(S)))
-        B.append("R_%d~K=%s~S=%s~L=%d" % (ids[s], enc(K), enc(S), 0 if stay else 1))
+        if not stay and s in crashed:
+            # the orchestration of s failed in this reaction (its run ends raising an exception of its own making)
+            B.append("OF_%d~K=%s" % (ids[s], enc(K)))
+        else:
+            B.append("R_%d~K=%s~S=%s~L=%d" % (ids[s], enc(K), enc(S), 0 if stay else 1))
         ack_unstarted(K)
         if not stay:
             phase[s] = "tidy"
